@@ -1,7 +1,8 @@
 // Harness for C18: drives the real client.BaseClient / client.CacheClient,
 // alone or wrapped in client.ReconnectClient, against a scripted transport
 // (an Impl registered through client.RegisterTest whose decoding side is the
-// real client/fake.Client), injects Close / context cancellation at chosen
+// real client/fake.Client or client/gnmi.Client; the constructor may also be the
+// real client/gnmi New dialling a target that never connects), injects Close / context cancellation at chosen
 // moments, and records the sequence of calls into the transport, handler /
 // disconnect / reset invocations and the calls and returns of Subscribe and
 // Close.  Coq (ClientCheck.check_all) decides whether the LTS accepts the
@@ -369,12 +370,11 @@ func factory(ctx context.Context, d client.Destination) (client.Impl, error) {
 			case <-s.dead:
 				return
 			}
-			if atomic.LoadInt32(&s.stopCalled) == 0 {
-				if s.c.reconnect() {
-					s.act(Act{What: "close"}, false)
-				} else {
-					s.act(Act{What: "cancel"}, false)
-				}
+			if !s.c.reconnect() {
+				// Close has no effect on a bare client that is still connecting
+				s.act(Act{What: "cancel"}, false)
+			} else if atomic.LoadInt32(&s.stopCalled) == 0 {
+				s.act(Act{What: "close"}, false)
 			}
 		}()
 		im, err := gclient.New(ctx, client.Destination{Addrs: []string{dialAddr[a.Dial]}, Timeout: dialTimeout})
